@@ -22,7 +22,8 @@ LEVEL_TEXT = ("Proved in Coq by induction over ALL request histories from the in
               "C05_disconnect_refuted shows by computation that without B2 two fidRefs become each other's parent and their Files leak. Every run "
               "re-checks the proofs, replays generated histories on the real server (failure injected at every backend-call index of the corpus, "
               "connection cut after every byte of short sessions, fid replacement, xattr fids, create-rebinding) plus gated concurrent scenarios "
-              "(rename while a child's last DecRef is parked in Close; rename whose Renamed callback overlaps a disconnect), evaluates the stated "
+              "(rename while a child's last DecRef is parked in Close; rename whose Renamed callback overlaps a disconnect) and a fault scenario "
+              "(backend panic inside the Renamed notification one / two levels below a renamed directory, then every connection dropped), evaluates the stated "
               "clauses on the observed backend call log independently of the model, and compares replies, call logs and the path tree with the model.")
 LEVEL_NOTE = ("What is what. PROVED for the model (history theorems, every backend): count invariant, closed at most once, closed iff "
               "unreferenced, no call on a File after its Close (as receiver or argument, Renamed included), failing walk/attach closes what it "
@@ -32,7 +33,7 @@ LEVEL_NOTE = ("What is what. PROVED for the model (history theorems, every backe
               "call log only, no model involved): no File used after its Close or closed twice; after a complete disconnect every File closed "
               "exactly once, Handle returned, goroutine delta 0; a Twalk/Tattach answered with an error has closed every File it was handed. A "
               "history on which the implementation and the model disagree (replies, per-request call log, path-tree dump) is reported as a "
-              "VIOLATION with that history as replay. NOT covered: interleavings beyond the gated scenarios (sequential model; C06/C07/C16), B2 for "
+              "VIOLATION with that history as replay. Backend PANICS are outside the model (no panic answer): the disconnect clause after a panic inside a rename notification is tested by the fault scenario and its code-side mechanism (deferred release of the held references) is pinned by C05_held_references_released_by_defer, not proved. NOT covered: interleavings beyond the gated scenarios (sequential model; C06/C07/C16), B2 for "
               "backends other than PathFS (hypothesis [rsafe]: relating a backend's notion of 'below' to the server's tree is path coherence, "
               "proved for PathFS only), the Tattach branch !valid.Mode (same exit as a GetAttr error). The harness reads unexported fields "
               "(pathNode.childRefs/childRefNames/childNodes/deleted, fidRef.file, server.pathTree): renaming one breaks its compilation and is "
@@ -116,7 +117,7 @@ def run(ctx):
 
 RULE = ("fixed corpus (xattr fids, failing multi-step walks, fid replacement, create-rebinding, attach paths, two connections) with a failure "
         "injected at EVERY backend call index; short sessions cut after every byte of every frame; random histories plain / with injected "
-        "EIO, ENOENT, wrong-QID-count / cut at a random byte / left connected; distinct_nontrivial = distinct (steps, injection) records with >= 3 requests in which at least one File was closed, plus the gated scenarios; samples = the injected-failure history with the most backend calls, the complete history with the most successful rename/unlink requests, one gated scenario")
+        "EIO, ENOENT, wrong-QID-count / cut at a random byte / left connected; 8 Renamed-panic-then-disconnect scenarios; distinct_nontrivial = distinct (steps, injection) records with >= 3 requests in which at least one File was closed, plus the gated scenarios; samples = the injected-failure history with the most backend calls, the complete history with the most successful rename/unlink requests, one gated scenario")
 
 
 def slim(o):
